@@ -244,7 +244,8 @@ CHECKS = {
  'C04': dict(
     category='proof',
     text=('fkM/fkMy1y2 of all four panel kernels proved (or refuted) entry-wise against the Hessian of the kinetic energy with the reference-surface '
-          'convention of the laminate; Panel.calc_kM executed symbolically with argument pass-through obligations (offset, sub-interval, size).'),
+          'convention of the laminate; Panel.calc_kM executed symbolically with argument pass-through obligations (offset, sub-interval, size); '
+          'fkMf of the 1-D blade stiffener against the kinetic energy of the flange strip and BladeStiff1D.calc_kM (arguments h, hb, hf, df; flange plies 1..3).'),
     design_ref='DESIGN.md section 4 (C04)', note=KERNEL_NOTE + '; 1 fixed defect (sign of the offset coupling, 24 obligations)',
     technique='contracts on kernels and Python methods; symbolic execution; exact normal form + z3'),
  'C01': dict(
